@@ -155,6 +155,11 @@ class MinFlowDecompCycles(walkmodel.AbstractWalkModelDiGraph):
         self.G = self.G_internal
         self.subset_constraints = subset_constraints_internal
         self.edges_to_ignore = edges_to_ignore_internal
+
+        # As documented: without ignored edges the flow must be conserved (and present on every edge)
+        if len(edges_to_ignore_internal) == 0 and not gu.check_flow_conservation(self.G_internal, flow_attr):
+            utils.logger.error(f"{__name__}: The graph G does not satisfy flow conservation or some edges have missing `flow_attr`. This is an error, unless you passed `elements_to_ignore` to include at least those edges with missing `flow_attr`.")
+            raise ValueError("The graph G does not satisfy flow conservation or some edges have missing `flow_attr`. This is an error, unless you passed `elements_to_ignore` to include at least those edges with missing `flow_attr`.")
         self.additional_starts = additional_starts_internal
         self.additional_ends = additional_ends_internal
 
